@@ -232,6 +232,89 @@ func szShortenWant(s uint64) (string, string) {
 	return new(big.Int).Div(bs, szUnitMult[best]).String(), best
 }
 
+// szAliasUnits: plausible spellings of units that are NOT units of this package, near misses of the valid names
+// (case, blanks, plural, punctuation, dropped/doubled letters, look-alike and full-width letters) and spellings other
+// tools use. Hand-picked plus derived from every valid name; whether one of them is acceptable in a given place (the
+// text form ignores blanks around the unit) is decided by the oracles, not here.
+func szAliasUnits() []string {
+	seen := map[string]bool{}
+	var out []string
+	add := func(u string) {
+		if !seen[u] {
+			seen[u] = true
+			out = append(out, u)
+		}
+	}
+	for _, u := range []string{"bytes", "byte", "b", "Bytes", "BYTES", "Byte", "bytes ", "kb", "KB", "Kb", "kib", "KIB", "Kib", "kiB", "KIb", "k", "K", "M", "m", "G", "T", "P", "E", "Z", "Y",
+		"Ki", "Mi", "Gi", "Ti", "Pi", "Ei", "iB", "i", "kilobyte", "kilobytes", "kibibyte", "kibibytes", "KiloByte", "Kbyte", "kByte", "kbyte", "Kbit", "kbit", "Mbit", "Mb", "mb", "gb", "tb", "Gb",
+		"MB/s", "MiB/s", "KiBps", "o", "Ko", "Mo", "Go", "octets", "KiB.", "KiBs", "KiB,", "KiB;", "(KiB)", "KiB)", "[KiB]", "\"KiB\"", "'KiB'", "Ki B", "K iB", "K_iB", "Ki_B", "KiB_", "_KiB", "-KiB", "+KiB", "KiB-", "/KiB",
+		" KiB", "KiB ", "KiB  ", "\u00a0KiB", "KiB\u00a0", "\u3000KiB", "KiB\u3000", "\u2009KiB", "\ufeffKiB", "KiB\ufeff", "KiB\x00", "\x00KiB", "KiB\n", "\nKiB", "KiB\r\n", "KiB\t", "\tKiB", "KiB\v",
+		"ＫiB", "ＫｉＢ", "Ｂ", "ｋＢ", "КiB", "ΚiB", "KіB", "KiВ", "KіB", "KiB́", "ℬ", "㎅", "㎆", "B.", "B ", " B", "  B", "B  ", "BB", "Bi", "B/s", "Bs", "1", "0", "1B", "-", "_", ".", "µB", "mB", "kBB", "kkB",
+		"KiKiB", "KiBKiB", "K", "KiloB", "kiloB", "KibiB", "XiB", "XB", "RB", "QB", "RiB", "QiB", "ZB ", "zb", "yb", "ZiB ", "Zi", "zib", "YIB", "e", "EiBs", "eib", "EB ", " EB"} {
+		add(u)
+	}
+	for _, u := range szUnits18 {
+		if u == "" {
+			continue
+		}
+		add(strings.ToLower(u))
+		add(strings.ToUpper(u))
+		sw := []byte(u)
+		for i := range sw {
+			sw[i] ^= 0x20
+		}
+		add(string(sw))
+		for _, w := range []string{" ", "  ", "\t", "\n", "\r\n", "\x00", " ", "_", "s", ".", "B", "i"} {
+			add(u + w)
+			add(w + u)
+		}
+		add(u + u[len(u)-1:])
+		add(u[:1] + u)
+		add(u[:len(u)-1])
+		add(u[1:])
+		add(string(rune(0xFF00+int(u[0])-0x20)) + u[1:]) // full-width first letter
+		if len(u) == 3 {
+			add(u[:1] + u[2:])       // KB
+			add(u[:1] + "I" + u[2:]) // KIB
+			add(u[:2] + "b")         // Kib
+			add(u[:2] + " " + u[2:]) // Ki B
+		}
+	}
+	return out
+}
+
+// szRoundSizes: "round" sizes people configure - k x 10^j and k x 1024^j for small and odd k. The stratified sample
+// takes them only for a handful of k.
+func szRoundSizes() []uint64 {
+	seen := map[uint64]struct{}{}
+	var out []uint64
+	add := func(v *big.Int) {
+		if v.Cmp(szTwo64) >= 0 {
+			return
+		}
+		if _, ok := seen[v.Uint64()]; !ok {
+			seen[v.Uint64()] = struct{}{}
+			out = append(out, v.Uint64())
+		}
+	}
+	ks := []int64{25, 50, 75, 100, 125, 150, 200, 250, 256, 300, 400, 500, 512, 600, 700, 750, 768, 800, 900, 1000, 1023, 1024, 1025, 1100, 1500, 2000, 2048, 2500, 4095, 4096, 5000, 8192, 9000, 9999, 10000, 65535, 65536}
+	for k := int64(1); k <= 128; k++ {
+		ks = append(ks, k)
+	}
+	for _, k := range ks {
+		p10, p2 := big.NewInt(1), big.NewInt(1)
+		for j := 0; j <= 19; j++ {
+			add(new(big.Int).Mul(big.NewInt(k), p10))
+			p10 = new(big.Int).Mul(p10, big.NewInt(10))
+			if j <= 6 {
+				add(new(big.Int).Mul(big.NewInt(k), p2))
+				p2 = new(big.Int).Mul(p2, big.NewInt(1024))
+			}
+		}
+	}
+	return out
+}
+
 // ---------------------------------------------------------------------------------------- C13
 func propC13(c *Ctx) {
 	flags := []size.Format{0, size.FormatPretty, size.FormatHTML, size.FormatPretty | size.FormatHTML}
@@ -336,6 +419,9 @@ func propC13(c *Ctx) {
 	}
 	for _, s := range szSamples(c, 4096, nr) {
 		visit(s, true)
+	}
+	for i, s := range szRoundSizes() {
+		visit(s, i%8 == int(c.Seed%8))
 	}
 	// every decimal length of the shortened value itself and of the pretty groups: 10^l - 1, 10^l, 10^l + 1 are odd/even mixes
 	// prefix buffers are kept
@@ -516,6 +602,17 @@ func propC04(c *Ctx) {
 		}
 	}
 	n := int64(len(samples))
+	// round sizes (k x 10^j, k x 1024^j): every one, all configurations
+	for i, s := range szRoundSizes() {
+		checkStrings(s)
+		for cfg := 0; cfg < 8; cfg++ {
+			checkCfg(s, cfg, i%8 == 0)
+		}
+		if i%16 == int(c.Seed%16) {
+			ops(s)
+		}
+		n++
+	}
 	// more random and small values for the direct oracle only
 	extra := 20000
 	if c.Thorough {
@@ -980,6 +1077,39 @@ func propC08(c *Ctx) {
 		checkText(" "+bad, true)
 		checkText(bad+" ", true)
 	}
+	// unit aliases and near misses of the valid names: New, the text grammar, the JSON object form
+	aliases := szAliasUnits()
+	for ai, u := range aliases {
+		for vi, v := range []uint64{0, 1, 10, 1024, math.MaxUint64} {
+			got, err := size.New(v, u)
+			szJudgeNew(c, "uint64", fmt.Sprintf("i:%d", v), u, new(big.Rat).SetInt(szU(v)), got, err, szNewErrClass[uint64](err), vi < 3)
+		}
+		gotI, errI := size.New(int(5), u)
+		szJudgeNew(c, "int", "i:5", u, big.NewRat(5, 1), gotI, errI, szNewErrClass[int](errI), ai%4 == 0)
+		gotF, errF := size.New(float64(0), u)
+		szJudgeNew(c, "float64", "f:0:0", u, new(big.Rat), gotF, errF, szNewErrClass[float64](errF), ai%4 == 1)
+		for _, ds := range []string{"0", "10"} {
+			checkText(ds+u, true)
+			checkText(ds+" "+u, true)
+			checkText(" "+ds+"_"+u+" ", ai%2 == 0)
+		}
+		ub, _ := json.Marshal(u)
+		for di, doc := range []string{`{"value":10,"unit":` + string(ub) + `}`, `{"UNIT":` + string(ub) + `,"value":0}`, `{"unit":` + string(ub) + `,"Value":18446744073709551615}`} {
+			d := szAnalyse(doc)
+			for _, r := range []size.Rule{size.RuleEnableJSONObjectForm, size.RuleEnableJSONStringForm | size.RuleEnableJSONObjectForm} {
+				nText++
+				got, err := szParse(doc, 0, 16, r)
+				c.Check("")
+				line := szParseLine(doc, 0, 16, r)
+				if msg := szJudge12(got, err, d.szExpectFor(doc, 0, 16, r)); msg != "" {
+					c.Fail("C08.json", line, "%q rule %d: %s", doc, int(r), msg)
+				}
+				if di == 0 || (ai+di)%3 == 0 {
+					c.Op(line)
+				}
+			}
+		}
+	}
 	// single-byte mutations, deletions and insertions of valid texts
 	for _, base := range []string{"1 000 KiB", "12_345" + szNBSP + "kB", " 16 EiB ", "0ZB", "18446744073709551615", "7B"} {
 		for pos := 0; pos < len(base); pos++ {
@@ -999,7 +1129,7 @@ func propC08(c *Ctx) {
 	jsonVals := []string{"0", "1", "7", "15", "16", "17", "1024", "18446744073709551615", "18446744073709551616", "18446744073709552", "18014398509481984",
 		"1.5", "1.0", "0.5", "0.0", "1.000", "2e3", "1E2", "1e-1", "1e0", "1e19", "1.8446744073709552e19", "0.9999999999999999", "1.0000000000000002",
 		"-1", "-0", "-1.5", "9007199254740993", "12345678901234567890123", "1e400", "00", "01", "+1", ".5", "1.", "0x10", "NaN", "Infinity", "\"1\"", "null", "true", "[1]"}
-	jsonUnits := append(append([]string{}, szUnits18...), "", "kb", "b")
+	jsonUnits := append(append([]string{}, szUnits18...), "", "kb", "b", "KiB ", " KiB", "kib", "KIB", "kB ", " B", "B ", "bytes", "MiB\n", "Ki")
 	nJ := 0
 	for _, v := range jsonVals {
 		var docs []string
@@ -1766,16 +1896,72 @@ func propC12(c *Ctx) {
 			c.Op(szParseLine(doc, 0, 16, size.Rule(2+c.R.Intn(14))))
 		}
 	}
-	// deep nesting and long inputs
-	for _, depth := range []int{1, 2, 5, 40, 200} {
+	// unit members that are aliases or near misses of the valid names
+	for ai, u := range szAliasUnits() {
+		ub, _ := json.Marshal(u)
+		visit(`{"value":2,"unit":`+string(ub)+`}`, 1)
+		if ai%2 == 0 {
+			visit(`{"unit":`+string(ub)+`,"x":[],"VALUE":0}`, 1)
+		}
+	}
+	// deep nesting and long inputs: skipped unknown members of every depth 1..64, then sparse up to 5000
+	// (arrays, objects, alternating), before / between / after the known members
+	var depths []int
+	for d := 1; d <= 64; d++ {
+		depths = append(depths, d)
+	}
+	depths = append(depths, 100, 127, 128, 129, 200, 255, 256, 257, 300, 511, 512, 513, 1000, 1023, 1024, 1025, 2000, 4096, 5000)
+	for di, depth := range depths {
 		open, closeB := strings.Repeat("[", depth), strings.Repeat("]", depth)
-		tokens(open + closeB)
-		tokens(open + "1" + closeB)
-		tokens(open + closeB[1:])
-		tokens(strings.Repeat(`{"a":`, depth) + "1" + strings.Repeat("}", depth))
+		oopen, oclose := strings.Repeat(`{"a":`, depth), strings.Repeat("}", depth)
+		var mo, mc strings.Builder // alternating [ {"k": [ {"k": ...
+		for i := 0; i < depth; i++ {
+			if i%2 == 0 {
+				mo.WriteString("[")
+			} else {
+				mo.WriteString(`{"k":`)
+			}
+		}
+		for i := depth - 1; i >= 0; i-- {
+			if i%2 == 0 {
+				mc.WriteString("]")
+			} else {
+				mc.WriteString("}")
+			}
+		}
+		mode, side := 1, 1
+		if depth <= 8 || depth == 40 || depth == 64 || depth == 200 || depth == 256 || depth == 257 {
+			mode = 2
+		}
+		if depth > 600 {
+			// the model's decoder is quadratic in the depth: judge these on the implementation only and
+			// send one line each to the model
+			mode, side = 0, 0
+			c.Op(szParseLine(`{"x":`+open+closeB+`,"value":3,"unit":"kB"}`, 0, 16, 6))
+		}
+		if depth <= 300 || depth == 1000 {
+			tokens(open + closeB)
+			tokens(open + "1" + closeB)
+			tokens(open + closeB[1:])
+			tokens(oopen + "1" + oclose)
+		}
 		doc := `{"x":` + open + `{"value":1,"unit":"B"}` + closeB + `,"value":3,"unit":"kB"}`
-		visit(doc, 2)
-		visit(`{"x":`+open+closeB[1:]+`,"value":3,"unit":"kB"}`, 1)
+		visit(doc, mode)
+		visit(`{"x":`+open+closeB[1:]+`,"value":3,"unit":"kB"}`, side)
+		switch di % 3 {
+		case 0:
+			visit(`{"value":3,"o":`+oopen+`{"value":1,"unit":"B"}`+oclose+`,"unit":"kB"}`, side)
+			visit(`{"value":3,"unit":"kB","m":`+mo.String()+`null`+mc.String()+`}`, side)
+		case 1:
+			visit(`{"value":3,"unit":"kB","o":`+oopen+`[]`+oclose+`}`, side)
+			visit(`{"m":`+mo.String()+`"unit"`+mc.String()+`,"value":3,"unit":"kB"}`, side)
+		default:
+			visit(`{"o":`+oopen+`"value"`+oclose+`,"value":3,"unit":"kB"}`, side)
+			visit(`{"value":3,"m":`+mo.String()+`{"value":7,"unit":"EiB"}`+mc.String()+`,"unit":"kB"}`, side)
+		}
+		if depth > 64 {
+			visit(`{"value":3,"unit":"kB","o":`+oopen+`1`+oclose[1:]+`}`, side)
+		}
 	}
 	c.NT(nDocs * 80)
 	c.Note("C12 judged %d distinct inputs x 80 configurations; %d token-stream lines", nDocs, nTok)
